@@ -191,7 +191,7 @@ CHECKS.update({
                 'write nothing that existed before the call; only support_deprecated_rabbitmq writes module state. With those '
                 'clauses each call in a sequential history is the function of its arguments and the switch given by its contract.',
         'design_ref': 'DESIGN.md 4 C16, 6',
-        'note': COMMON_NOTE + 'THREAD SCHEDULES ARE NOT DECIDED: the family has no concurrency reasoning here; the thread clause '
+        'note': COMMON_NOTE + 'The thorough tier adds a stress run (4 threads, 1 us switch interval, every outcome compared with a fresh single-threaded child): a witness generator, not an exploration. THREAD SCHEDULES ARE NOT DECIDED: the family has no concurrency reasoning here; the thread clause '
                 'rests on the sufficient condition (no shared mutable state between calls on disjoint arguments).',
     },
 })
